@@ -4,6 +4,19 @@ import json, os, sys
 HERE = os.path.dirname(os.path.dirname(os.path.abspath(__file__)))
 props = [json.loads(l) for l in open(os.path.join(HERE, "properties.jsonl"))]
 
+# properties with obligations decided by evaluating the syntax tree of small string / name helpers on finite tables (tyverif/strmachine.py, DESIGN.md section 36)
+_TB = (" In addition the syntax tree of %s is interpreted by the evaluator tyverif/strmachine.py on a finite table of values supplied by the rule (%s): a finite "
+       "model read from the source, like the order-type models - it decides where the structural rules cannot read a restructured function, and it is a "
+       "table verdict (a defect outside the rows is not seen by it).")
+TABLES = {
+ "C02": _TB % ("_fill_placeholders, get_filename, parse_filename, _to_datetime_args, _standardise_datetime_args, _retrieve_time_coverage, _remove_group_capturing and FileInfo.update",
+               "9 templates x 153 candidate names; 8 templates x 6 pairs of times round trip; 12 combinations of known / unknown times"),
+ "C01": _TB % ("_fill_placeholders", "9 templates x 153 candidate names"),
+ "C16": _TB % ("_fill_placeholders", "9 templates x 153 candidate names"),
+ "C06": _TB % ("split_units", "40 radius spellings"),
+ "C13": _TB % ("get_xarray_groups and get_xarray_group", "6 tables of variable names x 14 group names"),
+}
+
 # property -> (technique, decided clauses, not decided / trusted base)
 T = {
  "C03": ("order-type models of the predicates/masks/guards read from trees.py (all weak orderings, exhaustive) + def-use provenance in FileSet.match",
@@ -47,7 +60,7 @@ T = {
          "the file-system walk (fsspec glob, zip), handler-provided times, pandas Grouper semantics, directory names that do not parse"),
  "C02": ("writer/reader table agreement (keyword table of get_filename vs regex table), exhaustive two-digit-year model, offset/scale algebra, CFG/structure rules for defaulting, merge order and rejection",
          "every documented temporal placeholder is written from the right time object and field (day of year counted from 1 January of that object's own year) with the width its regex reads; year2 round-trips over 1965..2064; doy writer +1 / reader -1; millisecond scale and the reader's sub-second weights; partial end times are completed from the start with end fields winning, rolled over by the unit next-coarser than the COARSEST end field exactly when end < start; missing end = start + time_coverage or start, end without start is an error; file-name information first and handler information second, consulted exactly under 'handler'/'both', None never overwrites a time; non-matching names raise ValueError, unknown/unfilled placeholders their dedicated errors; regex anchored/escaped",
-         "duplicate-placeholder rewriting, user regexes with special characters, string-level behaviour of re / str.format"),
+         "user regexes with special characters beyond the table's, ends that need a roll-over on the table level (structural C02.endfill only), string-level behaviour of re / str.format outside the tables"),
  "C05": ("CFG/structure rules of the supervision loop and the per-process caller (typestate of the bundle cache), def-use provenance of chunking, pairing and naming; C03.match, C10.align, C13.concat shared",
          "results are drained by a LOOP placed after the liveness filter (or once more after the supervision loop), every non-None queue element is yielded, joins follow, errors are read last; the caller puts every saved bundle, resets the cache after a flush, flushes the tail; a crash is signalled on both queues before re-raising; matches are split into min(processes, len) chunks with one process per chunk; the flat bookkeeping list has align's primary-major order; output names come from the collocations' own time span (min/max primary time); plus file matching, ordered loading and concat offsets",
          "queue interleavings and multiprocessing.Queue semantics, equality of the multisets across process counts as a whole, NetCDF round trip of written files, bundle boundaries after skipped files"),
@@ -84,7 +97,7 @@ for p in props:
             "engine": "tyverif",
             "level_claimed": {
                 "category": "other",
-                "text": "Static analysis of /repo's current source, no typhon code executed. Decides structural necessary conditions of the property (each attached to a named construct), not the behaviour as a whole. Decided: " + decided + ".",
+                "text": "Static analysis of /repo's current source; typhon is never imported or run. Decides structural necessary conditions of the property (each attached to a named construct), not the behaviour as a whole. Decided: " + decided + "." + TABLES.get(pid, ""),
                 "design_ref": "DESIGN.md section 5 (%s)" % pid},
             "level_note": "Trusted: CPython ast, the tyverif engine (CFG / reaching definitions / order models / algebra), sympy canonical forms, reference tables embedded in the rules. NOT decided: " + notdec + ". An unmet obligation whose construct lies in a function that differs from the snapshot of the tree the rules were confirmed on (tyverif/known_stmts.json) in more than 12 statements is answered with 'no verdict' (ANALYSIS-ERROR, exit 2), never with VIOLATION (DESIGN.md section 25).",
             "technique": "static analysis: " + tech,
@@ -97,7 +110,7 @@ m = {"version": 1, "setup_cmd": "true",
                "baseline_off_cmd": "cd /repo && /venv/bin/python -m pytest -ra -q -p no:cacheprovider --timeout=900 --continue-on-collection-errors",
                "source_commits": [], "add_only": True},
      "engines": [{"name": "tyverif", "path": "tyverif/", "serves_properties": [c["property_id"] for c in checks],
-                  "kind_free_text": "repository-specific static analyser (ast + statement CFG with exceptional edges + reaching definitions + order-type models + sympy formula algebra + table agreement); runs under python3-vt; never imports typhon"}],
+                  "kind_free_text": "repository-specific static analyser (ast + statement CFG with exceptional edges + reaching definitions + order-type models + sympy formula algebra + table agreement + an evaluator of the syntax tree of small string helpers on finite tables); runs under python3-vt; never imports typhon"}],
      "checks": checks,
      "notes": "Exit codes: 0 all decided clauses hold (KNOWN-FINDING lines for listed defects), 1 VIOLATION, 2 ANALYSIS-ERROR (anchor vanished / construct outside the analysable class). known_findings.json lists repaired (fixed:) and open (known) genuine defects. seeded/ holds independently produced breaking changes and which rule reports each.",
      "not_applicable": na}
